@@ -277,6 +277,38 @@ func ruleWrapID(w *World, r *Report) {
 		}
 	})
 	r.Check(resOK && errOK, rule, w.Pos(wr.Pos()), name, "OpEventData.Res / .Err", "the result and error of that very call", "the event does not carry the call's own result and error")
+	// the reported arguments are a snapshot taken before the operator runs ("as they were at call time")
+	EachInstr(wr, func(in ssa.Instruction) {
+		st, ok := in.(*ssa.Store)
+		if !ok {
+			return
+		}
+		tn, fld, _, okf := fieldOf(st.Addr)
+		if !okf || tn != "OpEventData" || fld != "Params" {
+			return
+		}
+		snap, isInstr := st.Val.(ssa.Instruction)
+		before := isInstr && instrDominates(snap, c) && snap != ssa.Instruction(c)
+		// the snapshot reads the wrapper's params
+		reads := false
+		if cp, ok := isAppendCall(st.Val); ok && len(cp.Call.Args) == 2 && cp.Call.Args[1] == ssa.Value(wr.Params[1]) {
+			reads = true
+		}
+		if !reads {
+			// make + copy form
+			if ms, ok := st.Val.(*ssa.MakeSlice); ok {
+				for _, ref := range referrers(ms) {
+					if cc, ok := ref.(*ssa.Call); ok {
+						if b, okb := cc.Call.Value.(*ssa.Builtin); okb && b.Name() == "copy" && cc.Call.Args[0] == ssa.Value(ms) && cc.Call.Args[1] == ssa.Value(wr.Params[1]) {
+							reads = true
+							before = instrDominates(cc, c)
+						}
+					}
+				}
+			}
+		}
+		r.Check(reads && before, rule, w.InstrPos(st), name, "OpEventData.Params = "+describe(st.Val), "a copy of the wrapper's params taken before the operator is applied", "the arguments are copied after the operator ran (an operator that writes to its argument slice is reported with the modified values), or not from the wrapper's params")
+	})
 }
 
 // ---- R-EVNOOP -----------------------------------------------------------------
@@ -478,8 +510,12 @@ func ruleEvGate(w *World, r *Report) {
 }
 
 var c12Witnesses = []Witness{
+	{Name: "op-event-params-copied-after-the-call", Rule: "R-WRAPID", Edits: []Edit{
+		{File: "compiler.go", Old: "			args := append([]Value(nil), params...)\n			res, err = op(ctx, params)", New: "			res, err = op(ctx, params)\n			args := append([]Value(nil), params...)"}}},
+	{Name: "benign-op-event-params-make-copy", Benign: true, Edits: []Edit{
+		{File: "compiler.go", Old: "			args := append([]Value(nil), params...)\n			res, err = op(ctx, params)", New: "			args := make([]Value, len(params))\n			copy(args, params)\n			res, err = op(ctx, params)"}}},
 	{Name: "op-event-aliases-params", Rule: "R-EVFRESH", Edits: []Edit{
-		{File: "compiler.go", Old: "			// params may be a buffer reused by the engine, the event keeps its own copy\n			params = append([]Value(nil), params...)\n", New: ""}}},
+		{File: "compiler.go", Old: "			args := append([]Value(nil), params...)\n", New: "			args := params\n"}}},
 	{Name: "loop-event-aliases-stack", Rule: "R-EVFRESH", Edits: []Edit{
 		{File: "engine.go", Old: "		Stack:     stack,\n		Data:      data,", New: "		Stack:     os[:osTop+1],\n		Data:      data,"}}},
 	{Name: "loop-event-copy-only-when-small", Rule: "R-EVFRESH", Edits: []Edit{
@@ -487,7 +523,7 @@ var c12Witnesses = []Witness{
 	{Name: "wrapper-swallows-error", Rule: "R-WRAPID", Edits: []Edit{
 		{File: "compiler.go", Old: "					Err:      err,\n				},\n			}\n			return\n		}", New: "					Err:      err,\n				},\n			}\n			return res, nil\n		}"}}},
 	{Name: "wrapper-passes-copy-to-operator", Rule: "R-WRAPID", Edits: []Edit{
-		{File: "compiler.go", Old: "			res, err = op(ctx, params)\n			// params may be a buffer", New: "			res, err = op(ctx, params[:len(params):len(params)][:0])\n			// params may be a buffer"}}},
+		{File: "compiler.go", Old: "			res, err = op(ctx, params)\n			e.EventChan <- Event{", New: "			res, err = op(ctx, params[:len(params):len(params)][:0])\n			e.EventChan <- Event{"}}},
 	{Name: "event-arm-pops-stack", Rule: "R-EVNOOP", Edits: []Edit{
 		{File: "engine.go", Old: "		default:\n			reportEvent(e, os, osTop, curt.value)\n			continue\n		}\n		if b, ok := res.(bool); ok {", New: "		default:\n			reportEvent(e, os, osTop, curt.value)\n			if osTop > 8 {\n				osTop--\n			}\n			continue\n		}\n		if b, ok := res.(bool); ok {"}}},
 	{Name: "tryeval-event-arm-clears-slot", Rule: "R-EVNOOP", Edits: []Edit{
@@ -501,5 +537,5 @@ var c12Witnesses = []Witness{
 	{Name: "benign-snapshot-with-copy", Benign: true, Edits: []Edit{
 		{File: "engine.go", Old: "	stack := make([]Value, osTop+1)\n	for i := int16(0); i <= osTop; i++ {\n		stack[i] = os[i]\n	}", New: "	stack := make([]Value, osTop+1)\n	copy(stack, os)"}}},
 	{Name: "benign-wrapper-copy-with-make", Benign: true, Edits: []Edit{
-		{File: "compiler.go", Old: "			params = append([]Value(nil), params...)\n", New: "			cp := make([]Value, len(params))\n			copy(cp, params)\n			params = cp\n"}}},
+		{File: "compiler.go", Old: "			args := append([]Value(nil), params...)\n", New: "			cp := make([]Value, len(params))\n			copy(cp, params)\n			args := cp\n"}}},
 }
